@@ -73,6 +73,10 @@ import os as _os
 if _os.path.exists(_os.path.join(_os.path.dirname(_os.path.dirname(_os.path.dirname(_os.path.abspath(__file__)))),
                                  "lean", "WV", "Props", "PyIR_C10.lean")):
     PROP_MODULES.append("WV.Props.PyIR_C10")
+# [deepDil2] second part of the Dilation data path (agents/deepDil2_integration.md)
+if _os.path.exists(_os.path.join(_os.path.dirname(_os.path.dirname(_os.path.dirname(_os.path.abspath(__file__)))),
+                                 "lean", "WV", "Props", "PyIRDil2_C10.lean")):
+    PROP_MODULES.append("WV.Props.PyIRDil2_C10")
 TRUSTED = [
     "below the Manager's ISend the mailbox connection is a stub (ClientService replaced inside the harness process): the "
     "dilation key, the peer's versions and its PLEASE are handed to the Manager built by wormhole.create().dilate() "
